@@ -160,6 +160,12 @@ func c18Messages(kind string, seed uint64, budget int, lg *caseLog) c18Report {
 				mm.Data = jm.Data
 				muts = append(muts, mutant{"data:" + jm.Label, resign(mm, w)})
 			}
+			// signing proposals: hostile baked ranges (two fields must cooperate, so they are crafted, not derived)
+			if g.Event == EvSigningStart {
+				for _, mm := range hostileRangeProposals(*g, w) {
+					muts = append(muts, mm)
+				}
+			}
 			// envelope
 			for _, ev := range []string{"", "bogus_event", strings.Repeat("e", 5000), "__idle", "event_dkg_init_process", "event_signing_init", "event_signing_restart"} {
 				mm := *g
@@ -355,3 +361,29 @@ func tail(s string, n int) string {
 }
 
 var _ = types.Operation{}
+
+var hostileRanges = [][2]int{{1 << 40, 1 << 62}, {-5, 3}, {-1 << 62, 1 << 62}, {18600, 1 << 40}, {18631, 18640}, {5, 2}, {1<<62 - 1, 1 << 62}, {-3, -1}, {18632, 18632}, {0, 0}}
+
+// hostileRangeProposals rewrites a genuine signing proposal into ones carrying hostile baked ranges,
+// re-signed with the proposer's key.
+func hostileRangeProposals(g storage.Message, w *world.World) []mutant {
+	var out []mutant
+	var req map[string]interface{}
+	if json.Unmarshal(g.Data, &req) != nil {
+		return nil
+	}
+	for _, rg := range hostileRanges {
+		for _, shape := range []string{"range-only", "payload-then-range"} {
+			tasks := []interface{}{map[string]interface{}{"MessageID": "r", "RangeStart": rg[0], "RangeEnd": rg[1]}}
+			if shape == "payload-then-range" {
+				tasks = append([]interface{}{map[string]interface{}{"MessageID": "p", "Payload": []byte("x")}}, tasks...)
+			}
+			req["SigningTasks"] = tasks
+			req["BatchID"] = fmt.Sprintf("hostile-%d-%d-%s", rg[0], rg[1], shape)
+			mm := g
+			mm.Data, _ = json.Marshal(req)
+			out = append(out, mutant{fmt.Sprintf("data:hostile-range:%s[%d,%d)", shape, rg[0], rg[1]), resign(mm, w)})
+		}
+	}
+	return out
+}
